@@ -41,6 +41,13 @@ def sel3(k):          # 48-bit field in which texel i takes value (i + k) % 8
     return v.to_bytes(6, "little")
 
 
+def flat3(v):         # 48-bit field in which every texel takes value v
+    x = 0
+    for i in range(16):
+        x |= v << (3 * i)
+    return x.to_bytes(6, "little")
+
+
 def block_sweeps(tier):
     out = []
     n = 0
@@ -51,6 +58,10 @@ def block_sweeps(tier):
         out.append(tex_case(n, 0, FORMATS["bc1"], 4 * len(chunk), 4, 1, b"".join(chunk), {"bc1 endpoint sweep": i})); n += 1
     # BC3: alpha endpoints x 8 selector rotations over a few colour blocks
     ablocks = [bytes([a0, a1]) + sel3(k) for a0, a1 in itertools.product(ALPHAS, ALPHAS) for k in range(8)]
+    # flat blocks: all sixteen texels take the same palette entry (incl. the saturated "endpoint 0 = 255, selectors 0" block),
+    # interleaved with the rotating ones so that a block which is not written shows what its neighbour left behind
+    flat = [bytes([a0, a1]) + flat3(v) for a0, a1 in itertools.product(ALPHAS, ALPHAS) for v in range(8)]
+    ablocks = [b for pair in zip(ablocks, flat) for b in pair]
     cblocks = [struct.pack("<HH", q0, q1) + sel2(k) for (q0, q1), k in zip(itertools.product([0, 2016, 65535], [31, 63488]), range(6))]
     b3 = [a + cblocks[i % len(cblocks)] for i, a in enumerate(ablocks)]
     for i in range(0, len(b3), 24):
@@ -90,7 +101,7 @@ def check(run):
             payload = bytes(rng.randrange(256) for _ in range(need(fmt, w, h, 1)))
             cases.append(tex_case(n, 0, fmt, w, h, 1, payload, {"geometry": [name, w, h, 1]})); n += 1
     run.rule = ("per-block sweeps (BC1: 81 ordered endpoint pairs x 4 selector rotations; BC3/BC5: 36 alpha endpoint pairs x 8 selector "
-                "rotations so every texel takes every selector value), geometry sweep over widths/heights 1..9,15,16,17 (thorough adds 511/512) "
+                "rotations so every texel takes every selector value, and x 8 flat blocks in which all texels take the same value), geometry sweep over widths/heights 1..9,15,16,17 (thorough adds 511/512) "
                 "for all four formats, depth 2..8, attribute words 0 / 3D / all ones / every single bit, random payloads; a case is one "
                 "texture file, distinct by bytes, all non-trivial")
     run.conform(cases, MODULE, CFG, shards=14, xmx="6g")
